@@ -266,6 +266,7 @@ def print_assumptions(prop_file):
     # the answer only depends on the compiled statement file: cached next to it, keyed by the .vo's mtime and size
     vo = os.path.join(COQ, "props", prop_file + "o")
     cache = os.path.join(COQ, "props", "." + prop_file + ".assumptions.json")
+    key = None
     try:
         st = os.stat(vo)
         key = [st.st_mtime_ns, st.st_size]
@@ -273,13 +274,14 @@ def print_assumptions(prop_file):
         if c.get("key") == key:
             return c["res"], c["out"]
     except (OSError, ValueError, KeyError):
-        key = None
-    rc, o, e = sh(["coqc", "-Q", "theories", "PV", "-Q", "gen", "PVgen", "-Q", "props", "PVprops",
-                   "-w", "-all", "-o", os.path.join(BUILD, "pa-%d.vo" % os.getpid()), os.path.join("props", prop_file)], cwd=COQ, timeout=900)
-    try:
-        os.remove(os.path.join(BUILD, "pa-%d.vo" % os.getpid()))
-    except OSError:
         pass
+    # compiled into a scratch directory (coqc demands the same base name; the directory may differ) so that the .vo made by
+    # `make` and its mtime stay untouched
+    padir = os.path.join(BUILD, "pa-%d" % os.getpid())
+    os.makedirs(padir, exist_ok=True)
+    rc, o, e = sh(["coqc", "-Q", "theories", "PV", "-Q", "gen", "PVgen", "-Q", "props", "PVprops",
+                   "-w", "-all", "-o", os.path.join(padir, prop_file + "o"), os.path.join("props", prop_file)], cwd=COQ, timeout=900)
+    shutil.rmtree(padir, ignore_errors=True)
     if rc != 0:
         return None, o + e
     res = {}
